@@ -78,24 +78,35 @@ def ast_dir(root=None):
         return _AST_DIR[root]
     d = os.path.join(CACHE, "ast-" + tree_hash(root))
     if not os.path.exists(os.path.join(d, "index.json")):
-        tmp = d + ".tmp%d" % os.getpid()
-        subprocess.run([ensure_astdump(), root, tmp], check=True)
+        import fcntl
+
         os.makedirs(CACHE, exist_ok=True)
-        try:
-            os.rename(tmp, d)
-        except OSError:
-            # somebody else won the race
-            subprocess.run(["rm", "-rf", tmp])
-        _prune_cache()
+        with open(os.path.join(CACHE, ".lock"), "w") as lk:
+            fcntl.flock(lk, fcntl.LOCK_EX)  # checks may run concurrently: one of them builds the cache
+            try:
+                if not os.path.exists(os.path.join(d, "index.json")):
+                    tmp = d + ".tmp%d" % os.getpid()
+                    subprocess.run(["rm", "-rf", tmp])
+                    subprocess.run([ensure_astdump(), root, tmp], check=True)
+                    os.rename(tmp, d)
+                    _prune_cache(keep=d)
+            finally:
+                fcntl.flock(lk, fcntl.LOCK_UN)
     _AST_DIR[root] = d
     return d
 
 
-def _prune_cache(keep=6):
+def _prune_cache(keep=None, n=8):
+    """drop old cache entries (never the current one, never anything touched in the last ten minutes)"""
+    import time
+
     try:
         ents = [os.path.join(CACHE, e) for e in os.listdir(CACHE) if e.startswith("ast-")]
         ents.sort(key=os.path.getmtime, reverse=True)
-        for e in ents[keep:]:
+        now = time.time()
+        for e in ents[n:]:
+            if e == keep or now - os.path.getmtime(e) < 600:
+                continue
             subprocess.run(["rm", "-rf", e])
     except OSError:
         pass
